@@ -264,7 +264,8 @@ def generate():
     try:
         step, derived, median = pieces()
         why = None
-    except Untranslatable as e:
+    except (Untranslatable, AttributeError, IndexError, KeyError, TypeError, ValueError) as e:
+        # (a shape of the source the translator does not even recognise counts as outside the translated fragment)
         why = str(e).replace('-/', '- /')
     if why is not None:
         return HEADER + ('/- statistics() could not be translated: %s -/\n'
